@@ -308,6 +308,10 @@ type Opts struct {
 	// CrashSig builds the violation for a history whose expansion killed or hung the worker.
 	CrashSig func(h []string, kind, stderr string) rep.Violation
 	Timeout  time.Duration
+	// FullDepth: histories of at most this length are expanded even when their state key was already
+	// reached by another history (no deduplication up to that length), so that every sequence of
+	// FullDepth+1 operations is executed whatever the state abstraction merges.
+	FullDepth int
 }
 
 // Search runs the BFS and returns what it covered.
@@ -431,7 +435,8 @@ func Search(name string, o Opts) *rep.Partial {
 				if s.Nontriv {
 					nontriv[s.Key+"|"+s.Outcome] = struct{}{}
 				}
-				if _, ok := seen[s.Key]; !ok {
+				_, known := seen[s.Key]
+				if !known || len(j.h)+1 <= o.FullDepth {
 					seen[s.Key] = struct{}{}
 					h2 := append(append([]int{}, j.h...), s.Op)
 					next = append(next, h2)
